@@ -97,6 +97,24 @@ def symmetric_system(n=4, u=2.0):
     return dict(n=n, na=1, nb=1, h0=0.1, h1=h1, chol=chol, ca=ca, cb=cb, info=info)
 
 
+def near_degenerate_system(u=2.0, split=1.0e-8):
+    """Closed-shell 3-ring with positive hopping: one-body levels (-1, -1, 2), so (2,2) electrons fill a DEGENERATE
+    occupied pair; a tiny on-site term splits the pair by ~split (never bitwise equal, far inside the library's
+    degeneracy threshold 1e-5).  Rotations inside the occupied pair leave the determinant unchanged, so AD through the
+    SCF must still equal finite differences; a derivative rule that mixes near-degenerate eigenvectors does not."""
+    n = 3
+    K = np.zeros((n, n))
+    for i in range(n):
+        K[i, (i + 1) % n] = K[(i + 1) % n, i] = 1.0
+    K[0, 0] += split
+    chol = np.array([np.sqrt(u) * np.diag(np.eye(n)[i]) for i in range(n)])
+    h1 = np.array([K, K])
+    ca, cb, info = scf(h1, chol, 2, 2, True)
+    if not (info["err"] < 1e-12 and info["stable"] < 3e-9):
+        raise RuntimeError("near-degenerate system did not converge to a stable SCF solution: %r" % (info,))
+    return dict(n=n, na=2, nb=2, h0=0.1, h1=h1, chol=chol, ca=ca, cb=cb, info=info)
+
+
 def build(sysd, walker_type, n_walkers, dt=0.01, n_batch=1, trial_kind=None, n_opt_iter=30):
     """Library objects for a system: ham handler, ham_data (with both intermediates), prop, trial, wave_data."""
     L = lib()
